@@ -93,6 +93,12 @@ C13_TN(gray2_image_t, "gray2") C13_TN(gray4_image_t, "gray4") C13_TN(rgb8_planar
 C13_TN(rgb32_image_t, "rgb32") C13_TN(gray32_image_t, "gray32")
 #undef C13_TN
 
+// default device presentation (TIFF overrides DEV_FILE with its TIFF* handle)
+struct DefaultDevices
+{
+    template <class F> static void with_dev(int d, ioc::Source const& s, F f) { ioc::with_dev(d, s, f); }
+};
+
 struct Rect { long x0, y0, dx, dy; };
 inline std::vector<Rect> all_rects(long w, long h)
 {
@@ -134,7 +140,7 @@ void check_seed(Emit& e, SeedView const& s, Opts const& o)
     Img ref;
     if (!e.begin(S + "/ref")) {}
     {
-        std::string err = guarded([&] { ioc::with_dev(ioc::DEV_STREAM, src, [&](auto& dev) { gil::read_image(dev, ref, tag()); }); });
+        std::string err = guarded([&] { Fmt::with_dev(ioc::DEV_STREAM, src, [&](auto& dev) { gil::read_image(dev, ref, tag()); }); });
         if (e.active)
         {
             if (!err.empty()) e.fail("read_image-throws", err);
@@ -184,7 +190,7 @@ void check_seed(Emit& e, SeedView const& s, Opts const& o)
         if (e.begin(S + "/full/" + D))
         {
             Img img;
-            std::string err = guarded([&] { ioc::with_dev(d, src, [&](auto& dev) { gil::read_image(dev, img, tag()); }); });
+            std::string err = guarded([&] { Fmt::with_dev(d, src, [&](auto& dev) { gil::read_image(dev, img, tag()); }); });
             if (!err.empty()) e.fail("read_image-throws", err);
             else { std::string df = ioc::diff(full, ioc::flat(gil::const_view(img))); if (!df.empty()) e.fail("device-disagrees", "istream vs " + D + ": " + df); }
             e.count(std::string("w:dev_") + D);
@@ -195,7 +201,7 @@ void check_seed(Emit& e, SeedView const& s, Opts const& o)
         if (e.begin(S + "/info/" + D))
         {
             std::string msg;
-            std::string err = guarded([&] { ioc::with_dev(d, src, [&](auto& dev) {
+            std::string err = guarded([&] { Fmt::with_dev(d, src, [&](auto& dev) {
                 auto backend = gil::read_image_info(dev, tag());
                 if (long(backend._info._width) != W || long(backend._info._height) != H)
                     e.fail("info-dims", std::string(vh::S() << "info " << backend._info._width << "x" << backend._info._height << " image " << W << "x" << H));
@@ -219,7 +225,7 @@ void check_seed(Emit& e, SeedView const& s, Opts const& o)
                 if (e.begin(S + "/crop/" + D + "/" + rid))
                 {
                     Img img;
-                    std::string err = guarded([&] { ioc::with_dev(d, src, [&](auto& dev) { gil::read_image(dev, img, st); }); });
+                    std::string err = guarded([&] { Fmt::with_dev(d, src, [&](auto& dev) { gil::read_image(dev, img, st); }); });
                     if (!err.empty())
                     {
                         if (s.partial_expected) e.fail("partial-read-throws", err); else e.count("not_covered_partial_read_unsupported");
@@ -234,7 +240,7 @@ void check_seed(Emit& e, SeedView const& s, Opts const& o)
                 {
                     using P = gil::rgba8_image_t;
                     P img;
-                    std::string err = guarded([&] { ioc::with_dev(d, src, [&](auto& dev) { gil::read_and_convert_image(dev, img, st); }); });
+                    std::string err = guarded([&] { Fmt::with_dev(d, src, [&](auto& dev) { gil::read_and_convert_image(dev, img, st); }); });
                     if (!err.empty())
                     {
                         if (s.partial_expected) e.fail("partial-read-throws", err); else e.count("not_covered_partial_read_unsupported");
@@ -256,7 +262,7 @@ void check_seed(Emit& e, SeedView const& s, Opts const& o)
                     fill_sentinel(gil::view(canvas));
                     Flat before = ioc::flat(gil::const_view(canvas));
                     auto dst = gil::subimage_view(gil::view(canvas), 1, 2, int(r.dx), int(r.dy));
-                    std::string err = guarded([&] { ioc::with_dev(d, src, [&](auto& dev) { gil::read_view(dev, dst, st); }); });
+                    std::string err = guarded([&] { Fmt::with_dev(d, src, [&](auto& dev) { gil::read_view(dev, dst, st); }); });
                     if (!err.empty())
                     {
                         if (s.partial_expected) e.fail("partial-read-throws", err); else e.count("not_covered_partial_read_unsupported");
@@ -288,7 +294,7 @@ void check_seed(Emit& e, SeedView const& s, Opts const& o)
             std::string pn = TypeName<P>::get();
             if (!e.begin(S + "/conv/" + pn + "/" + D)) return;
             P img;
-            std::string err = guarded([&] { ioc::with_dev(d, src, [&](auto& dev) { gil::read_and_convert_image(dev, img, tag()); }); });
+            std::string err = guarded([&] { Fmt::with_dev(d, src, [&](auto& dev) { gil::read_and_convert_image(dev, img, tag()); }); });
             if (!err.empty()) e.fail("read_and_convert_image-throws", err);
             else
             {
@@ -307,19 +313,20 @@ void check_seed(Emit& e, SeedView const& s, Opts const& o)
             if (!e.begin(S + (mode ? "/scanskip/" : "/scan/") + D)) continue;
             Flat rows{W, 0, 0, {}};
             std::vector<long> which;
-            std::string err = guarded([&] { ioc::with_dev(d, src, [&](auto& dev) {
+            std::string err = guarded([&] { Fmt::with_dev(d, src, [&](auto& dev) {
                 with_scanline_reader<tag>(dev, [&](auto& reader) {
                     auto it = reader.begin(); auto end = reader.end();
                     for (long row = 0; it != end; ++it, ++row)
                     {
                         if (mode == 1 && row % 2 == 0) continue;
                         gil::byte_t* p = *it;
-                        int ch = Fmt::scan_row(reader, p, rows.v);
+                        int ch = Fmt::template scan_row<Img>(reader, p, rows.v);
                         rows.ch = ch; ++rows.h; which.push_back(row);
                     }
                 });
             }); });
-            if (!err.empty())
+            if (err.find("harness: scanline row layout") != std::string::npos) e.count("not_covered_scanline_row_layout_unknown");
+            else if (!err.empty())
             {
                 if (s.scan_expected) e.fail("scanline-throws", err);
                 else e.count("not_covered_scanline_unsupported_variant");
@@ -355,7 +362,7 @@ void check_seed(Emit& e, SeedView const& s, Opts const& o)
                 auto dst = gil::subimage_view(gil::view(canvas), 1, 1, int(vw), int(vh));
                 long rx = use_region ? 1 : 0, ry = use_region ? 1 : 0, rw = use_region ? W - 1 : W, rh = use_region ? H - 1 : H;
                 settings_t st = use_region ? settings_t(gil::point_t(rx, ry), gil::point_t(rw, rh)) : settings_t();
-                std::string err = guarded([&] { ioc::with_dev(d, src, [&](auto& dev) {
+                std::string err = guarded([&] { Fmt::with_dev(d, src, [&](auto& dev) {
                     if (conv) gil::read_and_convert_view(dev, dst, st); else gil::read_view(dev, dst, st);
                 }); });
                 Flat after = ioc::flat(gil::const_view(canvas));
@@ -416,7 +423,7 @@ void check_seed(Emit& e, SeedView const& s, Opts const& o)
         if (e.begin(S + "/any/" + D))
         {
             typename Fmt::any_t any;
-            std::string err = guarded([&] { ioc::with_dev(d, src, [&](auto& dev) { gil::read_image(dev, any, tag()); }); });
+            std::string err = guarded([&] { Fmt::with_dev(d, src, [&](auto& dev) { gil::read_image(dev, any, tag()); }); });
             if (!err.empty()) e.fail("any_image-read-throws", err);
             else
             {
@@ -433,14 +440,14 @@ void check_seed(Emit& e, SeedView const& s, Opts const& o)
 }
 
 // read_view into an exactly sized interleaved byte buffer with poisoned, canary-filled surroundings
-template <class Img, class Tag>
+template <class Fmt, class Img>
 inline void view_exact_interleaved(Emit& e, ioc::Source const& src, int d, Flat const& full)
 {
     using pixel_t = typename Img::value_type;
     size_t rowbytes = size_t(full.w) * sizeof(pixel_t);
     vh::GuardBuf buf(rowbytes * size_t(full.h), 0x5A);
     auto dst = gil::interleaved_view(full.w, full.h, reinterpret_cast<pixel_t*>(buf.data()), std::ptrdiff_t(rowbytes));
-    std::string err = guarded([&] { ioc::with_dev(d, src, [&](auto& dev) { gil::read_view(dev, dst, Tag()); }); });
+    std::string err = guarded([&] { Fmt::with_dev(d, src, [&](auto& dev) { gil::read_view(dev, dst, typename Fmt::tag()); }); });
     if (!err.empty()) e.fail("read_view-throws", err);
     else { std::string df = ioc::diff(full, ioc::flat(dst)); if (!df.empty()) e.fail("read_view!=full", df); }
     if (!buf.intact()) e.fail("wrote-outside-view", "canary around an exactly-sized destination buffer changed");
